@@ -68,6 +68,41 @@ def run(F, tier, res):
         roots = list(roots)
         for e in elems:
             roots += F.trace(p, e, deep=True)
+        # a vector created empty and filled through `&mut` by a helper (`fill(&mut line, op, text)`): the tags are the other arguments
+        pl_ = c['args'][1].get('move') or c['args'][1].get('copy')
+        if pl_ and not pl_['p'] and any(r[0] == 'call' and r[1].endswith(('Vec::<T>::new', '::with_capacity', 'Vec::<T, A>::new')) for r in F.trace(p, c['args'][1])):
+            holders = {pl_['l']}
+            for (dbb, kind, payload) in F.local_defs(p).get(pl_['l'], []):
+                if kind == 'assign' and payload[0] == 'use':
+                    q_ = payload[1].get('move') or payload[1].get('copy')
+                    if q_ and not q_['p']:
+                        holders.add(q_['l'])
+            for j, c2 in calls.items():
+                if j == i:
+                    continue
+                takes = False
+
+                def borrows_holder(l, depth=0):
+                    if l in holders:
+                        return True
+                    if depth > 4:
+                        return False
+                    for (dbb, kind, payload) in F.local_defs(p).get(l, []):
+                        if kind == 'assign' and payload[0] == 'ref' and all(pr[0] == 'deref' for pr in payload[2]['p']):
+                            if borrows_holder(payload[2]['l'], depth + 1):
+                                return True
+                        if kind == 'assign' and payload[0] == 'use':
+                            q2 = payload[1].get('move') or payload[1].get('copy')
+                            if q2 and all(pr[0] == 'deref' for pr in q2['p']) and borrows_holder(q2['l'], depth + 1):
+                                return True
+                    return False
+                for a in c2['args']:
+                    al = a.get('move') or a.get('copy')
+                    if al and not al['p'] and al['l'] not in holders and borrows_holder(al['l']):
+                        takes = True
+                if takes:
+                    for a in c2['args']:
+                        roots += F.trace(p, a, deep=True)
         params = {r[1] for r in roots if r[0] == 'param' and not r[2]}
         if params & P_EMPH:
             res.violate('UNPAIRED', 'fn=%s;emph-on-unpaired' % p, 'a line that infer_edits emits without a partner is tagged with an emphasis operation (deletion / insertion parameter): '
